@@ -170,6 +170,10 @@ pub fn base_module(id: &str, rng: &mut Rng, small: bool) -> Result<gen::GenModul
             cfg.max_funcs = if small { 3 } else { 6 };
             cfg.min_globals = 1;
             cfg.min_imp_globals = if id == "C29" { 1 } else { 0 };
+            if id == "C29" {
+                // function imports behind non-function imports: FunctionID != ImportsID
+                cfg.mixed_imports = rng.bool();
+            }
             *rng.pick(&[gen::PROFILES[0], gen::PROFILES[2], gen::PROFILES[5], gen::PROFILES[6], gen::PROFILES[11], gen::PROFILES[2]])
         }
     };
